@@ -1,6 +1,426 @@
 package main
 
-func cmdCheck(args []string) int    { return 2 }
-func cmdReplay(args []string) int   { return 2 }
+import (
+	"encoding/json"
+	"flag"
+	"fmt"
+	"os"
+	"path/filepath"
+	"runtime"
+	"sort"
+	"strconv"
+	"strings"
+	"sync"
+	"time"
+
+	"golang.org/x/tools/go/ssa"
+)
+
+const verifDir = "/verif"
+
+type knownFinding struct {
+	Property   string `json:"property"`
+	Obligation string `json:"obligation"`
+	Site       string `json:"site"`
+	InputClass string `json:"input_class,omitempty"`
+	What       string `json:"what"`
+}
+
+type fixedFinding struct {
+	Property   string `json:"property"`
+	Commit     string `json:"commit"`
+	Obligation string `json:"obligation"`
+	What       string `json:"what"`
+}
+
+type knownFile struct {
+	Findings []knownFinding `json:"findings"`
+	Fixed    []fixedFinding `json:"fixed"`
+}
+
+func loadKnown() knownFile {
+	var k knownFile
+	b, err := os.ReadFile(filepath.Join(verifDir, "known_findings.json"))
+	if err == nil {
+		json.Unmarshal(b, &k)
+	}
+	return k
+}
+
+// funcsFor lists the functions whose (merged) contract names prop.
+func funcsFor(P *Program, prop string) []*ssa.Function {
+	var out []*ssa.Function
+	for _, fn := range sortedFuncs(P) {
+		if len(fn.Blocks) == 0 {
+			continue
+		}
+		ct := P.contracts.lookup(P, fn)
+		if ct == nil {
+			continue
+		}
+		for _, p := range ct.Props {
+			if p == prop {
+				out = append(out, fn)
+				break
+			}
+		}
+	}
+	return out
+}
+
+func hasProp(ps []string, p string) bool {
+	for _, x := range ps {
+		if x == p {
+			return true
+		}
+	}
+	return false
+}
+
+type checkOpts struct {
+	repo     string
+	tier     string
+	timeoutS int
+	cross    bool
+	seed     int
+	quiet    bool
+	noReplay bool
+}
+
+type groupReport struct {
+	Name    string `json:"name"`
+	Func    string `json:"func"`
+	Kind    string `json:"kind"`
+	Pos     string `json:"pos"`
+	Status  string `json:"status"`
+	N       int    `json:"instances"`
+	Solver  string `json:"solver"`
+	Millis  int64  `json:"ms"`
+	Trivial int    `json:"trivial"`
+	MaxSize int    `json:"smt_bytes_max"`
+}
+
+func cmdCheck(args []string) int {
+	if len(args) < 1 {
+		usage()
+	}
+	prop := args[0]
+	fl := flag.NewFlagSet("check", flag.ExitOnError)
+	repo := fl.String("repo", "/repo", "repository")
+	tier := fl.String("tier", "", "quick|thorough")
+	quiet := fl.Bool("q", false, "quiet")
+	noReplay := fl.Bool("noreplay", false, "do not run replays")
+	noEvidence := fl.Bool("noevidence", false, "do not write the evidence file")
+	fl.Parse(args[1:])
+	o := checkOpts{repo: *repo, tier: *tier, quiet: *quiet, noReplay: *noReplay}
+	if o.tier == "" {
+		o.tier = os.Getenv("VERIF_TIER")
+	}
+	if o.tier == "" {
+		o.tier = "quick"
+	}
+	o.timeoutS = 20
+	if o.tier == "thorough" {
+		o.timeoutS = 300
+		o.cross = true
+	}
+	if s := os.Getenv("VERIF_SEED"); s != "" {
+		o.seed, _ = strconv.Atoi(s)
+	}
+	res := runCheck(prop, o)
+	if !*noEvidence && *repo == "/repo" {
+		writeEvidence(prop, o, res)
+	}
+	if res.violations > 0 || res.broken != "" {
+		return 1
+	}
+	return 0
+}
+
+type checkResult struct {
+	prop        string
+	funcs       []*VerifyResult
+	groups      []*oblGroup
+	failed      []*oblGroup
+	violations  int
+	known       int
+	broken      string
+	wall        float64
+	nObl        int
+	nDischarged int
+	nTrivial    int
+	nInstances  int
+	lines       []string
+	extra       map[string]interface{}
+}
+
+func (r *checkResult) say(quiet bool, format string, a ...interface{}) {
+	s := fmt.Sprintf(format, a...)
+	r.lines = append(r.lines, s)
+	if !quiet {
+		fmt.Println(s)
+	}
+}
+
+func runCheck(prop string, o checkOpts) *checkResult {
+	t0 := time.Now()
+	res := &checkResult{prop: prop, extra: map[string]interface{}{}}
+	P, err := loadProgram(o.repo)
+	if err != nil {
+		// A tree that does not build cannot be judged: report as a broken run, not a violation.
+		res.broken = "load: " + err.Error()
+		fmt.Println("kvc: cannot load repository:", err)
+		return res
+	}
+	cs, err := loadContracts(P)
+	if err != nil {
+		res.broken = "contracts: " + err.Error()
+		fmt.Println("kvc: contract files do not match the code:", err)
+		// a contract naming a function that no longer exists: the obligation set changed
+		fmt.Printf("VIOLATION property=%s replay=%s no-failing-input-found\n", prop, writeSimpleReplay(prop, "contract-binding", err.Error()))
+		res.violations++
+		return res
+	}
+	P.contracts = cs
+	if err := P.analyseInits(); err != nil {
+		res.broken = "init: " + err.Error()
+		fmt.Println("kvc:", err)
+		return res
+	}
+	fns := funcsFor(P, prop)
+	if extra := extraChecks[prop]; extra != nil {
+		// property-specific structural checks (registry, frames, census)
+		extra(P, res, o)
+	}
+	if len(fns) == 0 && len(res.groups) == 0 {
+		res.broken = "no functions under contract for " + prop
+		fmt.Println("kvc:", res.broken)
+		return res
+	}
+	// symbolic execution, parallel over functions
+	results := make([]*VerifyResult, len(fns))
+	var wg sync.WaitGroup
+	sem := make(chan struct{}, runtime.NumCPU())
+	for i, fn := range fns {
+		wg.Add(1)
+		go func(i int, fn *ssa.Function) {
+			defer wg.Done()
+			sem <- struct{}{}
+			defer func() { <-sem }()
+			results[i] = verifyFunction(P, fn, []string{prop})
+		}(i, fn)
+	}
+	wg.Wait()
+	var all []*Obligation
+	for _, r := range results {
+		all = append(all, r.Obls...)
+	}
+	dir, _ := os.MkdirTemp("", "kvc-"+prop+"-")
+	defer os.RemoveAll(dir)
+	dischargeAll(all, dir, o.timeoutS, o.cross, runtime.NumCPU())
+	res.funcs = results
+	known := loadKnown()
+	for _, r := range results {
+		if r.Unsup != "" {
+			// fail closed: a function in a claimed cone that left the supported subset
+			g := &oblGroup{name: shortFn(r.Fn.String()) + "#outside-reach", pos: P.pos(r.Fn.Pos()),
+				obls: []*Obligation{{Name: shortFn(r.Fn.String()) + "#outside-reach", Kind: "reach", Func: r.Fn.String(),
+					Result: "unknown", Output: r.Unsup, Goal: r.Unsup, Props: []string{prop}}}}
+			res.groups = append(res.groups, g)
+		}
+		for _, g := range groupObls(r.Obls) {
+			res.groups = append(res.groups, g)
+		}
+	}
+	for _, g := range res.groups {
+		// obligations tagged for other properties only are reported by those properties
+		if len(g.obls[0].Props) > 0 && !hasProp(g.obls[0].Props, prop) {
+			continue
+		}
+		res.nObl++
+		res.nInstances += len(g.obls)
+		for _, ob := range g.obls {
+			if ob.Trivial {
+				res.nTrivial++
+			}
+		}
+		if g.status() == "discharged" {
+			res.nDischarged++
+			continue
+		}
+		res.failed = append(res.failed, g)
+	}
+	sort.Slice(res.failed, func(i, j int) bool { return res.failed[i].name < res.failed[j].name })
+	for _, g := range res.failed {
+		kf := matchKnown(known, prop, g)
+		if kf != nil {
+			res.known++
+			res.say(false, "KNOWN-FINDING: property=%s %s %s", prop, g.name, kf.What)
+			continue
+		}
+		path, tail := makeReplay(P, prop, g, o)
+		res.violations++
+		line := fmt.Sprintf("VIOLATION property=%s replay=%s", prop, path)
+		if tail != "" {
+			line += " " + tail
+		}
+		res.say(false, "%s", line)
+		if !o.quiet {
+			fmt.Printf("  obligation %s (%s) at %s: %s\n", g.name, g.status(), g.pos, firstFailing(g).Goal)
+		}
+	}
+	res.wall = time.Since(t0).Seconds()
+	if !o.quiet {
+		fmt.Printf("kvc check %s [%s]: %d functions, %d obligations (%d instances, %d by simplifier), %d discharged, %d known findings, %d violations, %.1fs wall, %.1fs solver\n",
+			prop, o.tier, len(fns), res.nObl, res.nInstances, res.nTrivial, res.nDischarged, res.known, res.violations, res.wall, float64(solverSeconds)/1000)
+	}
+	return res
+}
+
+var extraChecks = map[string]func(P *Program, res *checkResult, o checkOpts){}
+
+func firstFailing(g *oblGroup) *Obligation {
+	for _, o := range g.obls {
+		if g.isCover() {
+			return o
+		}
+		if o.Result != "unsat" {
+			return o
+		}
+	}
+	return g.obls[0]
+}
+
+func matchKnown(k knownFile, prop string, g *oblGroup) *knownFinding {
+	for i := range k.Findings {
+		f := &k.Findings[i]
+		if f.Property == prop && f.Obligation == g.name {
+			return f
+		}
+	}
+	return nil
+}
+
+func writeSimpleReplay(prop, name, msg string) string {
+	dir := filepath.Join(verifDir, "replays", prop)
+	os.MkdirAll(dir, 0o755)
+	p := filepath.Join(dir, sanitize(name)+".json")
+	b, _ := json.MarshalIndent(map[string]interface{}{"property": prop, "obligation": name, "verdict": "not-attempted",
+		"solver_output": msg}, "", " ")
+	os.WriteFile(p, b, 0o644)
+	return p
+}
+
+func sanitize(s string) string {
+	r := strings.NewReplacer("/", "_", "(", "", ")", "", "*", "", "#", "-", ":", "-", "@", "-", " ", "_")
+	return r.Replace(s)
+}
+
+func writeEvidence(prop string, o checkOpts, res *checkResult) {
+	os.MkdirAll(filepath.Join(verifDir, "evidence"), 0o755)
+	var fnames, inlined, viaCt, unsup, noDecr, bounded []string
+	assumed := map[string]bool{}
+	inl := map[string]bool{}
+	via := map[string]bool{}
+	for _, r := range res.funcs {
+		fnames = append(fnames, shortFn(r.Fn.String()))
+		if r.Unsup != "" {
+			unsup = append(unsup, shortFn(r.Fn.String())+": "+r.Unsup)
+		}
+		for k := range r.Exec.assumed {
+			assumed[k] = true
+		}
+		for k := range r.Exec.inlined {
+			inl[k] = true
+		}
+		for k := range r.Exec.viaCt {
+			via[k] = true
+		}
+		noDecr = append(noDecr, r.NoDecr...)
+		bounded = append(bounded, r.Bounded...)
+	}
+	for k := range inl {
+		inlined = append(inlined, k)
+	}
+	for k := range via {
+		viaCt = append(viaCt, k)
+	}
+	sort.Strings(inlined)
+	sort.Strings(viaCt)
+	var assumptions []string
+	for k := range assumed {
+		assumptions = append(assumptions, k)
+	}
+	sort.Strings(assumptions)
+	assumptions = append(assumptions,
+		"go/ssa (x/tools v0.29.0) preserves the semantics of the gc compiler",
+		"int/uint/uintptr are 64 bit (amd64/arm64)",
+		"slice capacities <= 2^32 elements, allocation frontier < 2^62 (finite memory)",
+		"closed world: interface values hold nil or a type declared in the loaded packages",
+		"SMT solvers z3 4.8.12 / z3 5.1.0 / cvc5 1.0 are sound")
+	var samples []groupReport
+	wins := map[string]int{}
+	for _, g := range res.groups {
+		gr := groupReport{Name: g.name, Func: shortFn(g.obls[0].Func), Kind: g.obls[0].Kind, Pos: g.pos, Status: g.status(), N: len(g.obls)}
+		for _, ob := range g.obls {
+			gr.Millis += ob.Millis
+			if ob.Trivial {
+				gr.Trivial++
+			}
+			if ob.Size > gr.MaxSize {
+				gr.MaxSize = ob.Size
+			}
+			if ob.Solver != "" {
+				gr.Solver = ob.Solver
+				wins[ob.Solver]++
+			}
+		}
+		if len(samples) < 40 || gr.Status != "discharged" {
+			samples = append(samples, gr)
+		}
+	}
+	cov := map[string]interface{}{
+		"obligations":              res.nObl,
+		"discharged":               res.nDischarged,
+		"obligation_instances":     res.nInstances,
+		"instances_by_simplifier":  res.nTrivial,
+		"checker_cmd":              fmt.Sprintf("/verif/bin/kvc check %s --tier %s", prop, o.tier),
+		"trusted_base":             assumptions,
+		"samples":                  samples,
+		"functions_under_contract": fnames,
+		"callees_via_contract":     viaCt,
+		"callees_inlined":          inlined,
+		"outside_reach":            unsup,
+		"loops_without_variant":    uniq(noDecr),
+		"unrolled_loops":           uniq(bounded),
+		"solver_wins":              wins,
+		"solver_seconds":           float64(solverSeconds) / 1000,
+		"known_findings_printed":   res.known,
+		"contract_lines":           0,
+	}
+	if res.funcs != nil && len(res.funcs) > 0 {
+		cov["contract_lines"] = res.funcs[0].Exec.P.contracts.nLines
+	}
+	for k, v := range res.extra {
+		cov[k] = v
+	}
+	ev := map[string]interface{}{
+		"property_id": prop,
+		"tier":        o.tier,
+		"seed":        o.seed,
+		"level":       "proof",
+		"coverage":    cov,
+		"assumptions": assumptions,
+		"wall_s":      res.wall,
+		"violations":  res.violations,
+	}
+	if res.broken != "" {
+		ev["broken"] = res.broken
+	}
+	b, _ := json.MarshalIndent(ev, "", " ")
+	os.WriteFile(filepath.Join(verifDir, "evidence", prop+".json"), b, 0o644)
+}
+
 func cmdSelftest(args []string) int { return 2 }
+
 func (P *Program) analyseInits() error { return nil }
